@@ -34,6 +34,7 @@ var (
 	aCreator  = addr("0xb80000000000000000000000000000000000000a") // CREATEs a child that stores, then INVALID
 	aTokUser  = addr("0xb90000000000000000000000000000000000000b") // TRANSFERTOKEN(0x20, tkn, 1) then REVERT
 	aEmpty    = addr("0xee0000000000000000000000000000000000000c") // never exists
+	aAux      = addr("0xa0c5000000000000000000000000000000000a0c") // layer F: the child contract of the case (installed per program)
 	aTkn      = addr("0x7000000000000000000000000000000000000070") // a token id
 	aSmall00  = common.BytesToAddress([]byte{0x00})
 	aSmall01  = common.BytesToAddress([]byte{0x01}) // also precompile ecrecover
@@ -54,7 +55,7 @@ var slotIDs = []common.Hash{common.BytesToHash([]byte{0}), common.BytesToHash([]
 
 var addrName = map[common.Address]string{
 	aOrigin: "origin", aSelf: "self", aReverter: "reverter", aInvalid: "invalider", aStorer: "storer", aSuicider: "suicider",
-	aIssueLib: "issuelib", aIssuer: "issuer", aSpinner: "spinner", aCreator: "creator", aTokUser: "tokuser", aEmpty: "empty", aTkn: "tkn",
+	aIssueLib: "issuelib", aIssuer: "issuer", aSpinner: "spinner", aCreator: "creator", aTokUser: "tokuser", aEmpty: "empty", aTkn: "tkn", aAux: "child",
 	aSmall00: "0x00", aSmall01: "0x01", aSmall02: "0x02", aSmall03: "0x03", aSmall04: "0x04", aSmall20: "0x20", aSmallFF: "0xff",
 }
 
@@ -91,6 +92,7 @@ type world struct {
 	db       state.Database
 	root     common.Hash
 	pristine *state.StateDB // opened at root, only ever read
+	aux      []byte         // layer F: code installed at aAux (the child contract) whenever a program is installed at aSelf
 }
 
 func bi(n int64) *big.Int { return new(big.Int).SetInt64(n) }
@@ -159,6 +161,10 @@ func (w *world) open(code []byte) *state.StateDB {
 	}
 	if code != nil {
 		st.SetCode(aSelf, code)
+		if w.aux != nil {
+			st.SetNonce(aAux, 1)
+			st.SetCode(aAux, w.aux)
+		}
 	}
 	return st
 }
